@@ -375,7 +375,7 @@ func TestSweeps(t *testing.T) {
 		limit := 1000000
 		for v := 0; v < limit && !stop; v++ {
 			hh, mm, ss := v/10000, (v/100)%100, v%100
-			if !ev.Thorough() && hh != 23 && mm != 59 && ss != 59 && hh != 0 && v%97 != 0 {
+			if !ev.Thorough() && !(hh == 0 || hh == 23 || hh == 24 || hh == 25) && !(mm == 59 || mm == 60) && !(ss == 59 || ss == 60) && !(mm == 0 && ss == 0) && v%97 != 0 {
 				continue
 			}
 			if !ev.Mine(idx) {
@@ -422,7 +422,7 @@ func TestSweeps(t *testing.T) {
 		}
 		for v := 0; v < 1000000 && !stop; v++ {
 			hh, mm, ss := v/10000, (v/100)%100, v%100
-			if !ev.Thorough() && hh != 23 && mm != 59 && ss != 59 && v%97 != 0 {
+			if !ev.Thorough() && !(hh == 0 || hh == 23 || hh == 24 || hh == 25) && !(mm == 59 || mm == 60) && !(ss == 59 || ss == 60) && !(mm == 0 && ss == 0) && v%97 != 0 {
 				continue
 			}
 			if !ev.Mine(idx) {
